@@ -119,8 +119,8 @@ fn a1<const N: usize, const D: usize>() {
                 Err(e) => assert!(e.is_message() && indef_in_def,
                     "no-alloc skip() failed for another reason than an indefinite container inside a definite one"),
             }
-            kani::cover!(end == N && N > 1, "a well-formed item of maximal length exists");
-            kani::cover!(indef_in_def);
+            kani::cover!(end == N, "a well-formed item of maximal length exists");
+            kani::cover!(N < 3 || indef_in_def);
         }
         Wf::Trunc => assert!(r.is_err(), "skip() stopped early on a strict prefix of a well-formed item"),
         Wf::Bad => {}
